@@ -165,6 +165,10 @@ func areaStrategy(r *Rng, n int, dir string) (*AreaOut, error) {
 		var stored []pair
 		for _, k := range pool {
 			if r.Chance(35) {
+				if flags&lmdb.DupSort == 0 && r.Chance(12) {
+					stored = append(stored, pair{k, []byte{}}) // LMDB allows a zero-length value: the key is present
+					continue
+				}
 				stored = append(stored, pair{k, pick(r, stratVals)})
 				if flags&lmdb.DupSort != 0 && r.Chance(40) {
 					stored = append(stored, pair{k, pick(r, stratVals)})
